@@ -2819,7 +2819,7 @@ def _apply_set_operation(
     )
 
 
-SAFE_IDENTIFIER_RE: t.Pattern[str] = re.compile(r"^[_a-zA-Z][\w]*$")
+SAFE_IDENTIFIER_RE: t.Pattern[str] = re.compile(r"^[_a-zA-Z][\w]*\Z")
 
 
 @t.overload
